@@ -6,17 +6,18 @@ From AV Require Import lib.Num model.C16_Model.
 From Gen Require Import C16_Extracted.
 Local Open Scope R_scope.
 
-(* the air-vector decomposition and magnitude of get_ground_speed are one of the two readings of the
+(* [ground_speed_query tas az f_u f_v]: f_u / f_v = the file's eastward / northward wind at the point.
+   The air-vector decomposition and magnitude of get_ground_speed are one of the two readings of the
    model: the code as it stands (exchanged = true, F14) or the specification (false).  The harness
    reports which (by evaluating the extracted text) and runs the correspondence against that one. *)
 Theorem C16_link_kernel :
-  (forall tas az u v, @ground_speed_kernel RNum tas az u v = @gs RNum true tas az u v) \/
-  (forall tas az u v, @ground_speed_kernel RNum tas az u v = @gs RNum false tas az u v).
+  (forall tas az u v, @ground_speed_query RNum tas az u v = @gs RNum true tas az u v) \/
+  (forall tas az u v, @ground_speed_query RNum tas az u v = @gs RNum false tas az u v).
 Proof.
   first [ left; intros; reflexivity | right; intros; reflexivity
-        | left; intros; unfold ground_speed_kernel, magnitude, u_air, v_air, heading_given,
+        | left; intros; unfold ground_speed_query, ground_speed_kernel, magnitude, u_air, v_air, heading_given,
                                gs, gs_rad, air, hypot, deg2rad, c_pi, c_180, fst, snd; rnum; f_equal; ring
-        | right; intros; unfold ground_speed_kernel, magnitude, u_air, v_air, heading_given,
+        | right; intros; unfold ground_speed_query, ground_speed_kernel, magnitude, u_air, v_air, heading_given,
                                gs, gs_rad, air, hypot, deg2rad, c_pi, c_180, fst, snd; rnum; f_equal; ring ].
 Qed.
 Print Assumptions C16_link_kernel.
